@@ -129,14 +129,23 @@ def _zeroing_before_normalise(f: Func) -> Tuple[bool, str]:
     g = CFG(f.node)
     pm = parents_map(f.node)
     zero_nodes = []
+    wrong_polarity: List[str] = []
     for n in walk_no_nested(f.node):
         if isinstance(n, ast.If) and norm(n.test) == "mask_index is not None":
             for s in n.body:
                 for x in ast.walk(s):
                     if isinstance(x, ast.Assign) and isinstance(x.targets[0], ast.Subscript) and norm(x.value) in ("0", "0.0"):
                         idx = norm(x.targets[0].slice)
+                        sl = x.targets[0].slice
+                        # result[<window> == mask_index] = 0: the mask must be an *equality* with mask_index
+                        masks = [c_ for c_ in ast.walk(sl) if isinstance(c_, ast.Compare) and "mask_index" in norm(c_)]
+                        if masks and not all((rel_of(c_) or ("",))[0] == "eq" for c_ in masks):
+                            wrong_polarity.append(norm(x))
+                            continue
                         if "mask_index" in idx or _under_mask_compare(x, pm):
                             zero_nodes.append(n)
+    if wrong_polarity:
+        return False, "`%s` zeroes the positions that are NOT the mask: every real weight is removed and the mask keeps its own" % wrong_polarity[0]
     if not zero_nodes:
         return False, "no `if mask_index is not None:` block zeroing the masked positions"
     norm_ifs = [n for n in walk_no_nested(f.node) if isinstance(n, ast.If) and norm(n.test) == "normalize"]
